@@ -13,6 +13,7 @@ import (
 	"go/types"
 	"math/big"
 	"sort"
+	"strconv"
 	"strings"
 
 	"golang.org/x/tools/go/ssa"
@@ -129,6 +130,7 @@ type Engine struct {
 	root       *ssa.Function
 	opaque     map[string]bool  // canonical callee names never inlined
 	globalInit map[string]*Term // initial values of package-level variables that are never reassigned after init (key: gaddr term key)
+	stub map[string][]*Term // callee -> fixed results (composition with an outcome class of the callee)
 	hof        map[string]int   // opaque higher-order callee -> index of the function argument it runs (modelled as one synchronous call)
 	bind       map[string]*Term // term key -> replacement (composition presets)
 	stats      struct{ paths, pruned, loopcut int }
@@ -676,6 +678,18 @@ func (e *Engine) doCall(s *state, fr *frame, v *ssa.Call, c *ssa.CallCommon) boo
 	site := mk("site", siteName, 0, nil)
 	res := mk("call", d.callee, 0, v.Type(), append([]*Term{site, d.recv}, d.args...)...)
 	fr.env[v] = res
+	if st, ok := e.stub[d.callee]; ok {
+		if len(st) == 1 {
+			fr.env[v] = st[0]
+		} else {
+			fr.env[v] = mk("tuple", "", 0, nil, st...)
+		}
+	}
+	if d.callee == "errors.Is" && len(d.args) == 2 {
+		if eq, known := errorsIsKnown(d.args[0], d.args[1]); known {
+			fr.env[v] = mk("const", fmt.Sprint(eq), 0, types.Typ[types.Bool])
+		}
+	}
 	ev := Event{Kind: "call", Callee: d.callee, Fn: d.sfn, Recv: d.recv, Args: d.args, Res: res, Pos: v.Pos(), Ctx: fr.ctx, Depth: fr.depth, InFn: fr.fn}
 	if d.closure != nil {
 		ev.Args = append([]*Term{d.closure}, ev.Args...)
@@ -744,6 +758,18 @@ func (e *Engine) doCall(s *state, fr *frame, v *ssa.Call, c *ssa.CallCommon) boo
 			}
 		}
 		if opFn != nil && e.inModule(opFn) && !e.onStack(s, opFn) {
+			// a retried operation: whatever it assigns to captured variables may have been assigned by an earlier
+			// attempt, so those variables hold an unknown carried-over value when an attempt starts
+			if repeatingHOF[d.callee] && od.closure != nil {
+				for i, fv := range opFn.FreeVars {
+					if i < len(od.closure.Args) && storesThrough(opFn, fv, 0) {
+						cell := od.closure.Args[i]
+						if cell != nil && cell.Kind == "alloc" {
+							e.havoc(s, cell, mk("carried", fv.Name(), 0, elemType(cell.Typ), cell))
+						}
+					}
+				}
+			}
 			nf := e.newFrame(opFn, fr, od, v, v.Pos())
 			nf.hofOf = d.callee
 			s.stack = append(s.stack, nf)
@@ -785,9 +811,104 @@ func (e *Engine) doCall(s *state, fr *frame, v *ssa.Call, c *ssa.CallCommon) boo
 	return false
 }
 
+var repeatingHOF = map[string]bool{
+	"github.com/cenkalti/backoff/v4.Retry":               true,
+	"github.com/cenkalti/backoff/v4.RetryNotify":         true,
+	"github.com/cenkalti/backoff/v4.RetryNotifyWithTimer": true,
+}
+
+// storesThrough: fn (or a closure nested in it that captures the same variable) stores through free variable fv.
+func storesThrough(fn *ssa.Function, fv *ssa.FreeVar, depth int) bool {
+	if depth > 4 {
+		return true
+	}
+	based := func(v ssa.Value) bool {
+		for i := 0; i < 8; i++ {
+			switch x := v.(type) {
+			case *ssa.FreeVar:
+				return x == fv
+			case *ssa.FieldAddr:
+				v = x.X
+			case *ssa.IndexAddr:
+				v = x.X
+			default:
+				return false
+			}
+		}
+		return false
+	}
+	for _, b := range fn.Blocks {
+		for _, in := range b.Instrs {
+			switch x := in.(type) {
+			case *ssa.Store:
+				if based(x.Addr) {
+					return true
+				}
+			case *ssa.MakeClosure:
+				inner := x.Fn.(*ssa.Function)
+				for j, bnd := range x.Bindings {
+					if bnd == ssa.Value(fv) && j < len(inner.FreeVars) && storesThrough(inner, inner.FreeVars[j], depth+1) {
+						return true
+					}
+				}
+			case ssa.CallInstruction:
+				// the variable's address handed to a call: may be written
+				for _, a := range x.Common().Args {
+					if a == ssa.Value(fv) {
+						return true
+					}
+				}
+			}
+		}
+	}
+	return false
+}
+
 // knownLen: length of slice literals and of append chains that start from one.
+// zeroOf: the zero value of typ; basic types get their constant so that comparisons fold.
+func zeroOf(typ types.Type) *Term {
+	if typ != nil {
+		if b, ok := typ.Underlying().(*types.Basic); ok {
+			switch {
+			case b.Info()&types.IsString != 0:
+				return mk("const", "\"\"", 0, typ)
+			case b.Info()&types.IsBoolean != 0:
+				return mk("const", "false", 0, typ)
+			case b.Info()&types.IsNumeric != 0:
+				return mk("const", "0", 0, typ)
+			}
+		}
+	}
+	return mk("zero", typeStr(typ), 0, typ)
+}
+
 func knownLen(t *Term) (int, bool) {
 	switch t.Kind {
+	case "nil":
+		return 0, true
+	case "zero":
+		if t.Typ != nil {
+			switch u := t.Typ.Underlying().(type) {
+			case *types.Slice, *types.Map:
+				return 0, true
+			case *types.Basic:
+				if u.Info()&types.IsString != 0 {
+					return 0, true
+				}
+			}
+		}
+	case "const":
+		// a string constant: its byte length
+		if strings.HasPrefix(t.Name, "\"") {
+			if u, err := strconv.Unquote(t.Name); err == nil {
+				return len(u), true
+			}
+		}
+	case "conv":
+		// []byte("const") / string(...) keep the length of a constant
+		if len(t.Args) == 1 && t.Args[0].Kind == "const" && (t.Name == "[]byte" || t.Name == "string") {
+			return knownLen(t.Args[0])
+		}
 	case "varargs":
 		return len(t.Args), true
 	case "append":
@@ -903,7 +1024,7 @@ func (e *Engine) load(s *state, addr *Term, typ types.Type) *Term {
 			return e.fieldOf(whole, addr.Name, typ)
 		}
 		if base.Kind == "alloc" {
-			return mk("zero", typeStr(typ), 0, typ)
+			return zeroOf(typ)
 		}
 		if base.Kind == "faddr" || base.Kind == "cell" || base.Kind == "indexaddr" || base.Kind == "gaddr" {
 			// nested struct: load the parent then project
@@ -927,7 +1048,7 @@ func (e *Engine) load(s *state, addr *Term, typ types.Type) *Term {
 				}
 			}
 		}
-		return mk("zero", typeStr(typ), 0, typ)
+		return zeroOf(typ)
 	case "cell":
 		if isLocalAddr(addr) {
 			// a struct element assembled field by field
@@ -944,7 +1065,7 @@ func (e *Engine) load(s *state, addr *Term, typ types.Type) *Term {
 					}
 				}
 			}
-			return mk("zero", typeStr(typ), 0, typ)
+			return zeroOf(typ)
 		}
 		return mk("deref", "", 0, typ, addr)
 	case "indexaddr":
@@ -969,10 +1090,10 @@ func (e *Engine) fieldOf(whole *Term, name string, typ types.Type) *Term {
 				return f.Args[0]
 			}
 		}
-		return mk("zero", typeStr(typ), 0, typ)
+		return zeroOf(typ)
 	}
 	if whole.Kind == "zero" {
-		return mk("zero", typeStr(typ), 0, typ)
+		return zeroOf(typ)
 	}
 	return e.rebind(mk("field", name, 0, typ, whole))
 }
@@ -1079,12 +1200,29 @@ func (e *Engine) eval(s *state, fr *frame, v ssa.Value) *Term {
 		return mk("slice", "", 0, x.Type(), base, lo, hi)
 	case *ssa.Lookup:
 		m, k := e.val(s, fr, x.X), e.val(s, fr, x.Index)
-		if isMapTerm(m) && !isLocalAddr(m) {
+		if isMapTerm(m) && !isLocalAddr(m) && m.Kind != "maplit" {
 			s.emit(Event{Kind: "mapread", Recv: m, Args: []*Term{k}, Pos: x.Pos(), Ctx: fr.ctx, Depth: fr.depth, InFn: fr.fn})
 		}
 		var vt types.Type
 		if mt, ok := x.X.Type().Underlying().(*types.Map); ok {
 			vt = mt.Elem()
+		}
+		if m.Kind == "maplit" && (k.Kind == "const" || k.Kind == "global" || k.Kind == "nil" || k.Kind == "stubval") {
+			val, found := mk("zero", "", 0, vt), false
+			if vt != nil {
+				if bt, ok := vt.Underlying().(*types.Basic); ok && bt.Info()&types.IsNumeric != 0 {
+					val = mk("const", "0", 0, vt)
+				}
+			}
+			for i := 0; i+1 < len(m.Args); i += 2 {
+				if m.Args[i] == k {
+					val, found = m.Args[i+1], true
+				}
+			}
+			if x.CommaOk {
+				return mk("tuple", "", 0, nil, val, mk("const", fmt.Sprint(found), 0, types.Typ[types.Bool]))
+			}
+			return val
 		}
 		ep := 0
 		if anySub(m, func(t *Term) bool { return t.Kind == "preset" }) {
@@ -1282,7 +1420,11 @@ func normFact(c *Term, pol bool) (Fact, bool) {
 		return Fact{}, false
 	}
 	if c.Kind == "binop" && (c.Name == "==" || c.Name == "!=") {
-		if r, known := nilCompare(c.Args[0], c.Args[1]); known {
+		r, known := nilCompare(c.Args[0], c.Args[1])
+		if !known {
+			r, known = identCompare(c.Args[0], c.Args[1])
+		}
+		if known {
 			if (c.Name == "==") != r {
 				pol = !pol
 			}
@@ -1345,7 +1487,7 @@ func neverNil(t *Term) bool {
 		// package-level error sentinels (Err*): assigned once at package init (rule IMMUT-GLOBALS)
 		i := strings.LastIndex(t.Name, ".")
 		return strings.HasPrefix(t.Name[i+1:], "Err") && isErrorType(t.Typ)
-	case "alloc", "closure", "func", "structval":
+	case "alloc", "closure", "func", "structval", "stubval", "maplit":
 		return true
 	}
 	return false
@@ -1365,6 +1507,44 @@ func nilCompare(a, b *Term) (equal bool, known bool) {
 		return true, true
 	}
 	if an && neverNil(b) || bn && neverNil(a) {
+		return false, true
+	}
+	return false, false
+}
+
+// isSentinel: a package-level Err* error variable (assigned once at init by errors.New: rule IMMUT-GLOBALS).
+func isSentinel(t *Term) bool {
+	if t == nil || t.Kind != "global" {
+		return false
+	}
+	i := strings.LastIndex(t.Name, ".")
+	return strings.HasPrefix(t.Name[i+1:], "Err") && isErrorType(t.Typ)
+}
+
+// identCompare decides == between error sentinels and stub values by identity: distinct sentinels are distinct
+// errors.New allocations; a stub value stands for "any value that is none of the named ones".
+func identCompare(a, b *Term) (equal bool, known bool) {
+	if a == b && (isSentinel(a) || a.Kind == "stubval") {
+		return true, true
+	}
+	if (isSentinel(a) || a.Kind == "stubval") && (isSentinel(b) || b.Kind == "stubval") {
+		return false, true
+	}
+	return false, false
+}
+
+// errorsIsKnown decides errors.Is(x, target) for sentinel targets when x is nil, a sentinel, or a stub value
+// (errors.New values wrap nothing; a stub value stands for an error that is and wraps none of the sentinels).
+func errorsIsKnown(x, target *Term) (bool, bool) {
+	if !isSentinel(target) {
+		return false, false
+	}
+	switch {
+	case x.Kind == "nil":
+		return false, true
+	case isSentinel(x):
+		return x == target, true
+	case x.Kind == "stubval":
 		return false, true
 	}
 	return false, false
